@@ -29,3 +29,4 @@ def run(ctx):
     ctx.run("C09.EVAL", "R-TABLE/R-WHO", par.c09_eval)
     ctx.run("C16.GENEXIT", "R-ORDER", par.c16_genexit)
     ctx.run("C01.EACH-ONCE", "R-FLOW/R-ORDER", par.c01_each_once)
+    ctx.run("C01.BATCHSIZE", "R-ARITH", par.c01_batchsize)
